@@ -135,13 +135,13 @@ def detachKeep (s : SSt) (h : Nat) (keep : Option Nat) : List Alt :=
 def detach (s : SSt) (h : Nat) : List Alt := detachKeep s h none
 
 /-- the handle is to name a private buffer for `len` elements: an empty handle gets a new buffer, otherwise as
-    `detach`, a shared buffer handing over copies of its first `len` elements only -/
-def reserve (s : SSt) (h len : Nat) : List Alt :=
+    `detach` (the content is kept completely) -/
+def reserve (s : SSt) (h _len : Nat) : List Alt :=
   match s.hnd.getD h none with
   | none =>
     [{ ok := false, st := s },
      { ok := true, st := { objs := s.objs ++ [{ kind := .rbuf, ext := 0 }], hnd := s.hnd.set h (some s.objs.length) } }]
-  | some _ => detachKeep s h (some len)
+  | some _ => detachKeep s h none
 
 /-- a handle of a uniquely-owned array is to hold `newlen` elements: the only holder changes its buffer; a holder
     of a SHARED buffer gets a buffer of its own only when there is nothing to copy — otherwise the request is
